@@ -758,6 +758,42 @@ fn lib_matches(src: &str, lang: SupportLang, pattern: &str, rewrite: Option<&str
     .collect()
 }
 
+/// an HTML page around a script: the start tag on one line or spread over several (positions inside
+/// the embedded document are positions in the FILE, whatever the tag looks like)
+fn html_page(rng: &mut Rng, js: &str) -> String {
+  let tag = pick_s(rng, &["<script>", "<script\n  type=\"module\"\n  defer>", "<script type=\"module\"\r\n>", "<script\n>", "<script   >"]);
+  let style = pick_s(rng, &["<style>a { color: red }</style>", "<style\n  media=\"print\">\na { color: red }\n</style>"]);
+  let head = pick_s(rng, &["<html>\n<body>\n<p>é 中</p>\n", "", "<!-- é -->"]);
+  format!("{head}{tag}{js}</script>\n{style}\n<script\n\n>foo(1)</script>\n")
+}
+
+/// `lib_matches` for the JavaScript documents embedded in an HTML page (`get_injections`), in file order
+fn lib_matches_embedded(src: &str, pattern: &str, rewrite: Option<&str>) -> Vec<Value> {
+  let host = SupportLang::Html.ast_grep(src);
+  let lang = SupportLang::JavaScript;
+  let pat = Pattern::new(pattern, lang);
+  let fixer = rewrite.map(|r| Fixer::from_str(r, &lang).expect("fixer"));
+  let mut out = vec![];
+  for doc in host.inner.get_injections(|s| SupportLang::from_str(s).ok()) {
+    if *doc.lang() != lang {
+      continue;
+    }
+    for nm in doc.root().find_all(&pat) {
+      let r = nm.range();
+      let ro = match &fixer {
+        Some(f) => {
+          let ed = nm.make_edit(&pat, f);
+          json!([ed.position, ed.position + ed.deleted_length])
+        }
+        None => Value::Null,
+      };
+      out.push(json!({"s": r.start, "e": r.end, "mv": env_json(&nm), "ro": ro}));
+    }
+  }
+  out.sort_by_key(|m| m["s"].as_u64().unwrap_or(0));
+  out
+}
+
 /// matches of a one-rule YAML by the library
 fn lib_rule_matches(src: &str, lang: SupportLang, yaml: &str) -> Vec<Value> {
   let globals = GlobalRules::default();
@@ -1225,6 +1261,14 @@ pub fn cli_unit(ctx: &Ctx, rng: &mut Rng, o: &mut Out) {
         lib_matches(&src, sl, pat, if rewrite { Some("zz") } else { None })
       };
       files.push(json!({"name": format!("f{k}.{}", lang.ext), "src": src, "matches": ms}));
+    }
+    // an HTML page with the same kind of source in a script element: the embedded document's
+    // matches are reported with positions in the file
+    if lang.ext == "js" && !scan && rng.chance(1, 3) {
+      let js = gen_source(rng, lang, None);
+      let src = html_page(rng, &js);
+      let ms = lib_matches_embedded(&src, pat, if rewrite { Some("zz") } else { None });
+      files.push(json!({"name": "page.html", "src": src, "matches": ms}));
     }
     // a file without any match, to exercise empty buffers
     files.push(json!({"name": format!("zz.{}", lang.ext), "src": "\n", "matches": []}));
